@@ -154,8 +154,15 @@ TRACESTATE_KEY = b"tracestate"
 
 
 def encode_metadata(metadata: dict[str, str]) -> pa.KeyValueMetadata:
-    """Encode a plain ``dict[str, str]`` to ``pa.KeyValueMetadata`` with bytes keys/values."""
-    return pa.KeyValueMetadata({k.encode(): v.encode() for k, v in metadata.items()})
+    """Encode a plain ``dict[str, str]`` to ``pa.KeyValueMetadata`` with bytes keys/values.
+
+    Values may carry text the framework does not control (an exception
+    message holding a surrogate-escaped file name, say).  A lone surrogate
+    has no UTF-8 encoding; it is written as a backslash escape rather than
+    raised from the middle of writing an error or log batch, which would end
+    the stream without the peer ever seeing the error.
+    """
+    return pa.KeyValueMetadata({k.encode(): v.encode("utf-8", "backslashreplace") for k, v in metadata.items()})
 
 
 # ---------------------------------------------------------------------------
